@@ -343,10 +343,9 @@ func (p postNames20) sanitize() error {
 	// find the maximum
 	for _, u := range p.GlyphNameIndexes {
 		// https://developer.apple.com/fonts/TrueType-Reference-Manual/RM06/Chap6post.html
-		// says that "32768 through 65535 are reserved for future use".
-		if u > 32767 {
-			return errors.New("invalid index in Postscript names table format 20")
-		}
+		// says that "32768 through 65535 are reserved for future use", but
+		// the OpenType specification allows them, and fonts with more than
+		// 32767 named glyphs use them (as the other decoders accept)
 		if u > maxIndex {
 			maxIndex = u
 		}
